@@ -386,7 +386,7 @@ def run_check(spec):
             coverage.update(ex.get("coverage", {}))
             evaluations += ex.get("evaluations", 0)
     except vlib.BuildError as e:
-        red.append({"what": "harness-build", "detail": str(e)[-3000:]})
+        red.append({"what": "harness-build", "detail": str(e)[:3000]})
     except subprocess.TimeoutExpired as e:
         red.append({"what": "harness-timeout", "detail": str(e)[-1000:]})
     except Exception as e:   # the machinery itself tripped over what /repo now says: fails closed, never silently
